@@ -206,7 +206,10 @@ def r1_table(ctx):
         else:
             ctx.ok("C04.R2", "%s uses the %s comparison (%s)" % (h, want, s["cmpfn"]))
     ctx.floor("C04.R2", len(summ), 2, what="list functions with a recognised comparator")
-    outs = ctx.px(cond, inline=set(lfs), key="lists")
+    # every crate-local callee (the list functions, and any helper a maintainer extracts) is expanded; the comparators
+    # are only called inside the summarised list loops
+    cmpfns = {s["cmpfn"] for s in summ.values()}
+    outs = ctx.px(cond, inline=lambda c, d: bool(c.get("res_local")) and c.get("res_path") not in cmpfns, key="all-local")
     trie = Trie(outs)
     b = ctx.facts.bodies[cond]
     # parameter roles by type
